@@ -351,13 +351,23 @@ Inductive op :=
 
 Inductive res := RId (id : Z) | ROk | RRemoved (b : bool) | RErr (e : err).
 
-(* a poisoned handle refuses every mutation (ensure_mutable) *)
+(* a poisoned handle refuses every mutation (mutation_lease / ensure_mutable); the caller builds the document of an
+   add (Document::set_field) before the call *)
 Definition step (insf : bool) (sch : schema) (s : state) (o : op) : state * res :=
-  if st_poison s then (s, RErr EStorage) else
   match o with
-  | OAdd fs ft => let '(s', r) := add sch s fs ft in (s', match r with inl i => RId i | inr e => RErr e end)
-  | OUpdate id fs ft => let '(s', r) := update insf sch s id fs ft in (s', match r with inl _ => ROk | inr e => RErr e end)
-  | ORemove id ft => let '(s', r) := remove s id ft in (s', match r with inl b => RRemoved b | inr e => RErr e end)
+  | OAdd fs ft =>
+    match set_fields sch empty_doc fs with
+    | inr e => (s, RErr e)
+    | inl _ =>
+      if st_poison s then (s, RErr EStorage) else
+      let '(s', r) := add sch s fs ft in (s', match r with inl i => RId i | inr e => RErr e end)
+    end
+  | OUpdate id fs ft =>
+    if st_poison s then (s, RErr EStorage) else
+    let '(s', r) := update insf sch s id fs ft in (s', match r with inl _ => ROk | inr e => RErr e end)
+  | ORemove id ft =>
+    if st_poison s then (s, RErr EStorage) else
+    let '(s', r) := remove s id ft in (s', match r with inl b => RRemoved b | inr e => RErr e end)
   end.
 
 Fixpoint run (insf : bool) (sch : schema) (s : state) (os : list op) : state * list res :=
